@@ -296,7 +296,7 @@ def random_name(rng, intl=False, maxlen=30, hostile=False):
         if intl: alphabet += list(range(0xc0, 0x100))
     return bytes(rng.choice(alphabet) for _ in range(n))
 
-def random_tree(rng, intl=False, nfiles=8, ndirs=3, maxsize=60000, links=False, dbs=488, fill488=False, collide=False):
+def random_tree(rng, intl=False, nfiles=8, ndirs=3, maxsize=60000, links=False, dbs=488, fill488=False, collide=False, multicache=False):
     """a random tree with unique (case-folded) names per directory"""
     sizes = [0, 1, dbs-1, dbs, dbs+1, 2*dbs, 71*dbs, 72*dbs, 72*dbs+1, 73*dbs, 144*dbs+5]
     dirs = [[]]          # kid lists
@@ -348,5 +348,14 @@ def random_tree(rng, intl=False, nfiles=8, ndirs=3, maxsize=60000, links=False, 
         d = Dir(b"full488", date=(100, 2, 3))
         for i in range(14): d.kids.append(File(b"f%02dabcd" % i, b"", date=(200 + i, 1, 1)))
         d.kids.append(File(b"f14abcdefghijkl", b"x", date=(300, 1, 1)))
+        dirs[0].append(d)
+    if multicache:
+        # a directory whose cache spans several blocks of DIFFERENT shape: few long records first (long names, 79-byte
+        # comments), then many short ones — a reader that carries its record index or offset from one cache block into the
+        # next loses entries or parses from the middle of a record
+        d = Dir(b"multicache", date=(110, 2, 3))
+        for i in range(4): d.kids.append(File(b"L%02d_" % i + b"n" * 25, b"", comment=b"c" * 79, date=(400 + i, 1, 1)))
+        for i in range(14): d.kids.append(File(b"s%02d" % i, b"", date=(420 + i, 1, 1)))
+        for i in range(12 + (len(nodes) * 7) % 17): d.kids.append(File(b"m%02dxyz" % i, b"q", date=(440 + i, 1, 1)))
         dirs[0].append(d)
     return dirs[0]
